@@ -73,6 +73,9 @@ class P(StreamProperty):
             nsteps = len(order) + 5
             for cut in range(nsteps + 1):
                 cases.append(wrap(gens.decoder_case('er-%s-%d' % (kind, cut), cfg, order, finish=True, early_release=cut, cb='mix'), cut % 8))
+        # heavy columns: many equations reach degree one in a single call
+        for ci, c in enumerate(gens.dense_column_cases(rng, 'hc', 60 if tier == 'quick' else 600)):
+            cases.append(wrap(c, ci % 8))
         # advertised limits
         lim = [gens.Cfg('rs8', 254, 1), gens.Cfg('rs8', 1, 254), gens.Cfg('rs8', 128, 127), gens.Cfg('rs2m8', 200, 55), gens.Cfg('rs2m8', 1, 254),
                gens.Cfg('rs2m4', 14, 1), gens.Cfg('rs2m4', 1, 14), gens.Cfg('rs2m4', 8, 7),
